@@ -26,7 +26,7 @@ THEOREMS = [f'Gnpy.Gn.{t}' for t in (
     'weights', 'xpm_twice_spm', 'wgtF_self', 'wgtF_other', 'psi_nonneg', 'spm_formula', 'effLength_pos', 'term_nonneg',
     'nli_nonneg', 'nli_length', 'nli_eq_nliSpec', 'nonoverlap_distinct', 'loadAll_f', 'computeNli_eq_spec',
     'nliSpec_nonneg', 'nli_cubic', 'nliSpec_cubic', 'nli_mono_power', 'nli_add_channel_exact', 'nliOf_perm',
-    'nli_mono_add_channel', 'nli_perm', 'alpha_is_db', 'beta2_formula', 'gamma_at_ref')]
+    'nli_mono_add_channel', 'nli_perm', 'sortByF_eq_of_perm', 'input_order_irrelevant', 'sortByF_sorted_id', 'alpha_is_db', 'beta2_formula', 'gamma_at_ref')]
 RULE = ('cases from one PRNG: random fibre (length 0.1-300 km in km or m, scalar or per-frequency loss 0.15-0.35 dB/km, '
         'dispersion of either sign with/without slope or per-frequency table, effective area and/or gamma or neither, '
         'reference wavelength/frequency/default, connector losses, padding) x random non-overlapping comb on the 6.25 GHz '
@@ -36,8 +36,8 @@ RULE = ('cases from one PRNG: random fibre (length 0.1-300 km in km or m, scalar
 MODEL_SCOPE = ('modelled: NliSolver.compute_nli (gn_model_analytic branch), _gn_analytic, _psi, effective_length, '
                'Fiber.loss_coef_func/alpha/beta2 (scalar, slope and table branches)/gamma, FiberParams reference '
                'wavelength/frequency, effective area resolution, contrast, effective_area_scaling, gamma_scaling, '
-               'convert_length, apply_attenuation_db, SpectralInformation overlap/baud checks. Taken from the implementation '
-               'as input: the frequency-sorted spectrum (argsort in SpectralInformation.__init__). Not modelled: GGN methods')
+               'convert_length, apply_attenuation_db, SpectralInformation overlap/baud checks and its sort by frequency (argsort). '
+               'Not modelled: GGN methods')
 PARTIAL = []
 TRUSTED = ['HasPi Float = 3.141592653589793 (the binary64 value of numpy.pi); theorems use Real.pi']
 
@@ -215,6 +215,9 @@ def _run(case, drv):
     nli_p = NliSolver.compute_nli(_si(comb, order=perm), None, fiber)
     if not np.allclose(nli_p, impl, rtol=1e-12, atol=0.0):
         res.fail('order: the NLI depends on the order in which the channels were supplied')
+    ans3 = drv.ask('c03.nli_any', fibre=fj, f=fl([comb['f'][i] for i in perm]), b=fl([comb['b'][i] for i in perm]),
+                   p=fl([_pw(comb)[i] for i in perm]))
+    res.cmp_floats('constructor(argsort) + compute_nli on shuffled input', nli_p, [b2f(x) for x in ans3['nli']], abs_=0.0)
     # ---- bookkeeping
     res.nontrivial = n >= 2
     bucket = '1' if n == 1 else '2-8' if n <= 8 else '9-40' if n <= 40 else '41-120' if n <= 120 else '121-400'
